@@ -456,6 +456,8 @@ class Evaluator:
             self.silent += 1
             save_w = self.attr_writes
             self.attr_writes = set()
+            save_lw = self.local_writes
+            self.local_writes = set()
             save_loop_n = fr.loop_n
             self._loop_flags.append({"break": False})
             try:
@@ -470,11 +472,17 @@ class Evaluator:
                 self.attr_writes = save_w
                 if save_w is not None:
                     save_w |= w
+                lw = self.local_writes
+                self.local_writes = save_lw
+                if save_lw is not None:
+                    save_lw |= lw
                 self.silent -= 1
                 fr.loop_n = save_loop_n
-            if w <= hav_a:
+            lw = {k for k in lw if k in st.locs}
+            if w <= hav_a and lw <= hav_l:
                 break
             hav_a |= w
+            hav_l |= lw
         else:
             raise AnalysisError("loop havoc did not converge at %s:%d" % (fr.func.file, s.lineno))
         pre = st
@@ -655,6 +663,8 @@ class Evaluator:
                 old = self.load_name(name, st, stmt)
             new = self._apply_path(old, tuple(path), how, v)
             st.locs[name] = new
+            if self.local_writes is not None:
+                self.local_writes.add(name)
             self.emit("localmut", stmt, name=name, how=how, path=tuple(path), value=v, aug=aug, old=old)
         else:
             self.emit("localmut", stmt, name=None, how=how, path=tuple(path), value=v, aug=aug, old=root[1])
@@ -701,6 +711,8 @@ class Evaluator:
         if name in mi.classes:
             return atom(("global", mi.name + "." + name))
         if name in mi.functions:
+            return atom(("global", mi.name + "." + name))
+        if name in mi.globals:
             return atom(("global", mi.name + "." + name))
         return atom(("global", "builtins." + name))
 
@@ -1176,6 +1188,11 @@ class Evaluator:
                 f = f.parent
         return None
 
+    def _is_module_var(self, dotted):
+        mod, _, name = dotted.rpartition(".")
+        mi = self.prog.modules.get(mod)
+        return mi is not None and name in mi.globals
+
     def attr_types(self):
         """attribute -> repository class, from `self.x = Cls(...)` stores in
         the receiver's MRO (fail-closed: conflicting types -> absent)."""
@@ -1219,7 +1236,7 @@ class Evaluator:
     def _method_call(self, recv, f, args, kwargs, st, node):
         name = f.attr
         ra = recv.single_atom()
-        if ra is not None and ra[0] == "global":
+        if ra is not None and ra[0] == "global" and not self._is_module_var(ra[1]):
             return self._call_dotted(ra[1] + "." + name, args, kwargs, st, node)
         ci = self._obj_class(recv)
         res = atom(("mcall", recv, name, tuple(args), _kw(kwargs)))
@@ -1253,6 +1270,8 @@ class Evaluator:
                 if path:
                     newv = atom(("mutated", old if old is not None else atom(("undef", root[1])), tuple(path), "method:" + name, atom(("tuple", tuple(args)))))
                 st.locs[root[1]] = newv
+                if self.local_writes is not None:
+                    self.local_writes.add(root[1])
                 self.emit("localmut", node, name=root[1], how="method:" + name, path=tuple(path), value=atom(("tuple", tuple(args))), aug=None, old=old, kwargs=_kw(kwargs))
             else:
                 self.emit("localmut", node, name=None, how="method:" + name, path=tuple(path), value=atom(("tuple", tuple(args))), aug=None, old=recv, kwargs=_kw(kwargs))
